@@ -229,6 +229,14 @@ func (ch *channel) parseModes(modes string, modeargs ...string) {
 				logging.Warn("Channel.ParseModes(): not enough arguments to "+
 					"process MODE %s %s%c", ch.name, modestr, m)
 			}
+		case 'b', 'e', 'I':
+			// Ban, ban-exception and invite-exception masks are not tracked,
+			// but these list modes always carry a mask argument, which has
+			// to be consumed so that the modes after them in the same MODE
+			// line are matched with the right arguments.
+			if len(modeargs) != 0 {
+				modeargs = modeargs[1:]
+			}
 		default:
 			logging.Info("Channel.ParseModes(): unknown mode char %c", m)
 		}
